@@ -9,7 +9,7 @@ the cache is always sorted; its content after a batch does not depend on the arr
 it to the core in ascending id order.  Together with C04 (`stale_inert`: a duplicate or overtaken datagram is
 inert wherever it lands) this is why reordering alone never drops or NAKs a packet.  Over every sequence of arrivals
 (`nothing_dropped`): the wrapper hands every datagram it was given to the core exactly as often as it arrived — none dropped,
-none duplicated — once the cache has been flushed.
+none duplicated — once the cache has been flushed.  Releases interleaved with arrivals: `Props/C20_Reorder.lean`.
 -/
 namespace Utcp.Props.C20
 open Utcp Utcp.Gen
